@@ -2,10 +2,29 @@ package index
 
 import (
 	"encoding/binary"
+	"errors"
 	"io"
+	goMath "math"
 )
 
+var MetadataTooLargeError error = errors.New("Metadata exceeds the limits of the snapshot format (65535 entries, 255 byte keys, 65535 byte values)")
+
 type Metadata map[string]string
+
+// Validate reports whether the metadata can be written by save and read back
+// by load: the entry count and the value lengths are stored in two bytes, the
+// key lengths in one.
+func (this Metadata) Validate() error {
+	if len(this) > goMath.MaxUint16 {
+		return MetadataTooLargeError
+	}
+	for k, v := range this {
+		if len(k) > goMath.MaxUint8 || len(v) > goMath.MaxUint16 {
+			return MetadataTooLargeError
+		}
+	}
+	return nil
+}
 
 func (this Metadata) bytesSize() uint64 {
 	var n int = 0
